@@ -344,6 +344,11 @@ func CheckMain(id, tier string, only int) int {
 		e.PostRun(&RunInfo{Tier: tier, Seed: seed, LogDir: logdir, Violations: &viols, Extra: extra, Internal: &internal})
 	}
 
+	if old, _ := filepath.Glob(filepath.Join(root, "replays", fmt.Sprintf("%s-%d-*.json", id, seed))); only < 0 {
+		for _, f := range old {
+			os.Remove(f)
+		}
+	}
 	// ---- known findings, de-duplication by signature
 	findings := loadFindings(root)
 	bySig := map[string][]Violation{}
